@@ -107,6 +107,9 @@ func bookkeeping(c Case, r *result, u *vf.Unit) {
 		u.Class("keepalive-5-idle-periods")
 	}
 	u.Class(fmt.Sprintf("blocked-calls:%d", min(blocked, 6)))
+	if (c.C.Mult > 1 && len(c.C.Blocked) > 0) || (c.S.Mult > 1 && len(c.S.Blocked) > 0) {
+		u.Class("several-goroutines-in-one-call")
+	}
 	if blocked >= 2 {
 		u.NonTrivial(c.Cause, c.By, c.Phase, strings.Join(sets, ""))
 		if u.WantSample() {
